@@ -208,7 +208,7 @@ func checkC07(c *core.Ctx) {
 		if len(kinds) >= 2 && onRest {
 			c.Nontrivial(fmt.Sprint(i))
 		}
-		if i%400 == 0 {
+		if c.WantSample() {
 			c.Sample(pieceDesc(p, f))
 		}
 	})
